@@ -11,7 +11,6 @@
 import json, os, random, re
 import vkit
 
-KEY_SINGLE = "max-single-overridden-by-cfg"
 TICK = 100
 
 
@@ -53,11 +52,11 @@ def scenario(rng, kind):
                 rb, wb = rr2 * rng.choice((1, 2)), wr2 * rng.choice((1, 3))
                 ops.append({"a": "setcfg", "b": b, "rr": rr2, "rb": rb, "wr": wr2, "wb": wb})
             bursts[b] = (rb, wb); cfgb.append(b)
-            # AvoidKnown (max-single-overridden-by-cfg): with a per-bufferevent cfg keep max_single >= burst
-            if rng.random() < 0.5:
-                ops.append({"a": "setmax", "b": b, "d": 0, "m": rb + rng.choice((0, 1, 1000))})
-            if rng.random() < 0.5:
-                ops.append({"a": "setmax", "b": b, "d": 1, "m": wb + rng.choice((0, 1, 1000))})
+            # max_single below, at and above the burst (finding max-single-overridden-by-cfg, fixed in b9ad8f0)
+            if rng.random() < 0.6:
+                ops.append({"a": "setmax", "b": b, "d": 0, "m": rng.choice((50, rr // 2 + 1, rb - 1, rb, rb + 1, rb + 1000))})
+            if rng.random() < 0.6:
+                ops.append({"a": "setmax", "b": b, "d": 1, "m": rng.choice((50, wr // 2 + 1, wb - 1, wb, wb + 1, wb + 1000))})
     grouped = []
     if kind in ("group", "both"):
         rr = rng.choice((300, 1000, 3000)); wr = rng.choice((400, 1000, 2500))
@@ -75,7 +74,8 @@ def scenario(rng, kind):
 
 
 def known_trigger():
-    """max_single_read=100 with a per-bufferevent cfg of rate=burst=50000 (DESIGN section 8-8)"""
+    """max_single_read=100 with a per-bufferevent cfg of rate=burst=50000 (DESIGN section 8-8; fixed in b9ad8f0):
+    part of the general corpus"""
     ops = [{"a": "setmax", "b": 1, "d": 0, "m": 100}, {"a": "setcfg", "b": 1, "rr": 50000, "rb": 50000, "wr": 50000, "wb": 50000},
            {"a": "loop"}, {"a": "loop"}, {"a": "adv", "ms": TICK}, {"a": "loop"}]
     return {"cfg": {"tickms": TICK, "offms": 10, "nb": 1}, "h": ops}
@@ -124,18 +124,18 @@ def run(tier, seed):
              "GRate": 2, "GBurst": 3, "GMinShare": 1, "MaxOps": 2}
     invs = ["TypeOK", "WindowBound", "GroupWindowBound", "PerOpMax", "NoStall", "LevelBound", "GroupDeficitBound"]
     cfg = vkit.write_cfg("C22_mc", c, invariants=invs)
-    res = vkit.tlc("RateLimit", cfg, want_prints=False, coverage=True, workers=6, timeout=1100)
+    res = vkit.tlc("RateLimit", cfg, want_prints=False, coverage=True, workers=4, timeout=1100)
     chk.add_tlc("C22_mc", res)
     chk.check_coverage(res, ["TickAdvance", "ManualDecrement", "Join", "Leave"], "C22_mc")
     if not q:   # a second group shape: min_share larger than an even share
         c2 = dict(c, GRate=3, GBurst=3, GMinShare=2, Singles={2, 4}, Rates={2}, Bursts={3})
-        res2 = vkit.tlc("RateLimit", vkit.write_cfg("C22_mc2", c2, invariants=invs), want_prints=False, workers=6, timeout=1100)
+        res2 = vkit.tlc("RateLimit", vkit.write_cfg("C22_mc2", c2, invariants=invs), want_prints=False, workers=4, timeout=1100)
         chk.add_tlc("C22_mc2", res2)
     chk.cov["exhaustive"] = True
 
     # ---- 2. traces of the real library
     kinds = ["single", "group", "both"]
-    scen = [scenario(rng, kinds[i % 3]) for i in range(18 if q else 150)]
+    scen = [known_trigger()] + [scenario(rng, kinds[i % 3]) for i in range(18 if q else 150)]
     outs = vkit.run_driver(exe, scen, timeout=300)
     for s, o in zip(scen, outs):
         if o is None or "crash" in o:
@@ -169,17 +169,6 @@ def run(tier, seed):
         if batch > 6:
             break
 
-    # ---- 3. the canonical scenario of the open finding, separately
-    kt = known_trigger()
-    ko = vkit.run_driver(exe, [kt], shards=1)[0]
-    if ko is None or "crash" in ko:
-        raise vkit.InfraError("driver failed on the known-finding scenario: %s" % ko)
-    ok, msg, idx, _ = validate(chk, "known", [ko])
-    chk.count_case(kt, True)
-    if not ok:
-        chk.violation("max_single_read=100 + cfg rate=burst=50000: %s" % msg, {"scenario": kt, "events": ko["ev"][:idx], "message": msg},
-                      key=KEY_SINGLE if msg.startswith("PerOpMax") else None)
-
     chk.cov["rule"] = ("TLC explores the bounded RateLimit model exhaustively; each execution of the real library is validated event by "
                        "event by TLC (RateLimit_Trace): per-operation byte counts vs max_single and min(max_single, bucket, share), window "
                        "sums vs burst + k*rate per bufferevent and per group, and after every step the own bucket levels and the reported "
@@ -188,6 +177,6 @@ def run(tier, seed):
                         "the group bucket level and suspended flag are read from the library after every step (the group refill timer is "
                         "internal); an I/O operation of a group member may use the share after one more group refill",
                         "per-bufferevent configurations are set before traffic starts; manual refills never lift a bucket above its burst "
-                        "(C21 finding) and general scenarios keep max_single >= burst when a per-bufferevent cfg exists (open finding %s)" % KEY_SINGLE,
+                        "(open C21 finding refill-level-above-burst)",
                         "'makes progress within one tick' is decided on the model (NoStall) and bound through the reported budget only"]
     return chk.finish()
